@@ -96,6 +96,10 @@ func runLocalFlood(in input) lib.Case {
 	case <-floodDone:
 	case <-time.After(1500 * time.Millisecond):
 	}
+	// the forwarding goroutine of the victim-side connection moves the packets on its own time; there
+	// is no schedule point in local.go to wait on, so give it room to reach its resting state
+	// (all queues as full as they get) before the victim is stopped
+	time.Sleep(400 * time.Millisecond)
 	absorbed := atomic.LoadInt32(&sent) + 1
 	// stop the victim; router.closedSet is reached when Stop has closed all its connections
 	VR := V
